@@ -795,17 +795,12 @@ class Outputs:
 
         all_filenames: dict[str, dict[str, str]] = {}
 
-        dct: Mapping[ValidName, Sequence[ValidFormat]]
-        for dct in self.save_data_to_file:
-            # TODO: Why looking at first entry ? Check this !
-            # Get first entry of `dict` 'item'
-            first_item: tuple[ValidName, Sequence[ValidFormat]]
-            first_item, *_ = dct.items()
-
-            valid_name: ValidName
-            format_list: Sequence[ValidFormat]
-            valid_name, format_list = first_item
-
+        # Every entry of every `dict` is saved (not only the first one)
+        valid_name: ValidName
+        format_list: Sequence[ValidFormat]
+        for valid_name, format_list in [
+            item for dct in self.save_data_to_file for item in dct.items()
+        ]:
             value: np.ndarray | None = processor.get(valid_name, default=None)
             if value is None:
                 continue
@@ -883,7 +878,7 @@ class Outputs:
 
                 partial_filenames[out_format] = filename.name
 
-            all_filenames[valid_name] = partial_filenames
+            all_filenames.setdefault(valid_name, {}).update(partial_filenames)
 
         datatree: "xr.DataTree" = _dict_to_datatree(all_filenames)
         return datatree
